@@ -99,7 +99,7 @@ def run(module, cfg_text, scratch, env=None, workers=4, timeout=600, coverage=Fa
     with open(cfg, "w") as f:
         f.write(cfg_text)
     meta = os.path.join(scratch, "meta-" + name)
-    cmd = ["java", "-XX:+UseParallelGC", "-Xmx" + heap, "-cp", TLA_JAR + ":" + TLA_DEPS, "tlc2.TLC",
+    cmd = ["java", "-XX:+UseParallelGC", "-Xss32m", "-Xmx" + heap, "-cp", TLA_JAR + ":" + TLA_DEPS, "tlc2.TLC",
            "-workers", str(workers), "-metadir", meta, "-noGenerateSpecTE", "-config", cfg]
     if coverage:
         cmd += ["-coverage", "1"]
